@@ -770,8 +770,8 @@ class Model:
             Self: The instance of the model with the parameter removed.
 
         """
-        self._remove_id(name=name)
         self._parameters.pop(name)
+        self._remove_id(name=name)
         return self
 
     def remove_parameters(self, names: list[str]) -> Self:
@@ -1122,6 +1122,10 @@ class Model:
             Self: The instance of the model with the variable removed.
 
         """
+        if name not in self._variables:
+            msg = f"'{name}' not found in variables"
+            raise KeyError(msg)
+
         if remove_stoichiometries:
             for rxn in self._reactions.values():
                 if name in rxn.stoichiometry:
@@ -1131,8 +1135,8 @@ class Model:
                     if name in stoich:
                         cast(dict, stoich).pop(name)
 
-        self._remove_id(name=name)
         del self._variables[name]
+        self._remove_id(name=name)
         return self
 
     def remove_variables(
@@ -1438,8 +1442,8 @@ class Model:
             Self: The instance of the model with the derived attribute removed.
 
         """
-        self._remove_id(name=name)
         self._derived.pop(name)
+        self._remove_id(name=name)
         return self
 
     ###########################################################################
@@ -1670,8 +1674,8 @@ class Model:
             Self: The instance of the model with the reaction removed.
 
         """
-        self._remove_id(name=name)
         self._reactions.pop(name)
+        self._remove_id(name=name)
         return self
 
     # def update_stoichiometry_of_cpd(
@@ -1767,8 +1771,8 @@ class Model:
             Self: The instance of the class after the readout has been removed.
 
         """
-        self._remove_id(name=name)
         del self._readouts[name]
+        self._remove_id(name=name)
         return self
 
     ##########################################################################
@@ -1877,8 +1881,8 @@ class Model:
             Self: The instance of the model with the specified surrogate model removed.
 
         """
-        self._remove_id(name=name)
         surrogate = self._surrogates.pop(name)
+        self._remove_id(name=name)
         for output in surrogate.outputs:
             self._remove_id(name=output)
         return self
@@ -1941,8 +1945,8 @@ class Model:
     @_invalidate_cache
     def remove_data(self, name: str) -> Self:
         """Remove data set from model."""
-        self._remove_id(name=name)
         self._data.pop(name)
+        self._remove_id(name=name)
         return self
 
     ##########################################################################
